@@ -29,7 +29,7 @@ CLAIMED['C05'] = dict(
     ref='DESIGN.md section 3, C05')
 
 CLAIMED['C01'] = dict(
-    text='Narrow kernel of a very wide property: bounded model checking of the escaping DECISION of BindgenContext::rust_mangle (its condition, sliced verbatim) on every identifier of length 1..8 over [a-z0-9_$@?SA] - every Rust keyword and every name with $ @ ? is escaped and nothing else is, so definition and use sites agree; plus the compile-critical accessor/constructor templates for union parents (shared with C03; this is where finding F6, bindings that do not compile, was found).',
+    text='Narrow kernel of a very wide property: bounded model checking of the escaping DECISION of BindgenContext::rust_mangle (its condition, sliced verbatim) on every identifier of length 1..8 over [a-z0-9_$@?SA] - every Rust keyword and every name with $ @ ? is escaped and nothing else is, so definition and use sites agree; plus the compile-critical accessor/constructor templates for union parents (shared with C03; this is where finding F6, bindings that do not compile, was found); and the real Module::codegen with CodegenResult::{new, saw_*, inner}: for an item nested in 1..3 namespaces using any set of helper types (__BindgenUnionField, __IncompleteArrayField, __BindgenBitfieldUnit, block/objc prologue) each used helper is defined exactly once where its uses look for it, for every namespace / inline / module-raw-line option.',
     note='Trusted: Kani/CBMC; keyword list of the Rust Reference written in the harness. Not covered: the escaping itself (String::replace: not encodable, measured), path resolution, generics, derive soundness as rustc sees it, every other quote! template - i.e. most of the property.',
     ref='DESIGN.md section 3, C01')
 CLAIMED['C04'] = dict(
@@ -45,16 +45,16 @@ CLAIMED['C08'] = dict(
     note='Trusted: Kani/CBMC; the specification in harness/ir_derive_spec.rs; stub IR. Equality of one-step functions implies equality of least fixed points (paper). Not covered: rustc acceptance, hand-written impl bodies, derives_of_item, option gates in context.rs.',
     ref='DESIGN.md section 3, C08')
 CLAIMED['C09'] = dict(
-    text='Traversal level: per TypeKind variant the edges emitted by the real Trace impls equal the references the IR node holds; one ItemTraversal::next() from an arbitrary (seen, queue) state yields the queue top, records exactly its predicate-admitted successors (closure and minimality per step) and keeps the queue = unvisited discovered items; the allowlisting wrapper never yields a blocklisted item but follows its references; codegen_edges equals its documented table over all EdgeKinds and CodegenConfig values.',
-    note='Trusted: Kani/CBMC; stub IR. Not covered: root selection (regex crate, path strings), textual identity between runs, compiling the subset; the step-to-whole-run composition is on paper.',
+    text='Traversal level: per TypeKind variant the edges emitted by the real Trace impls equal the references the IR node holds; one ItemTraversal::next() from an arbitrary (seen, queue) state yields the queue top, records exactly its predicate-admitted successors (closure and minimality per step) and keeps the queue = unvisited discovered items; the allowlisting wrapper never yields a blocklisted item but follows its references; codegen_edges equals its documented table over all EdgeKinds and CodegenConfig values. Root selection: the real filter closure of compute_allowlisted_and_codegen_items selects an item as a root iff the documented rule for its kind says so (pattern of its kind or --allowlist-item on its path, allowlisted file, replaces-annotation, modules always, built-in kinds and stdint names when not recursive, unnamed top-level enums through any variant name), for every item kind and TypeKind variant.',
+    note='Trusted: Kani/CBMC; stub IR; pattern sets as tables of answers. Not covered: regex matching itself and the ^(...)$ anchoring wrapper (regex crate), path strings, textual identity between runs, compiling the subset; the step-to-whole-run composition is on paper.',
     ref='DESIGN.md section 3, C09')
 CLAIMED['C10'] = dict(
     text='The opaque path of the REAL CompInfo::codegen region emits exactly one blob of the C size and alignment and never repr(packed) next to repr(align); a helper type blocklisted as type or item is not defined; and three shared kernels: helpers::blob has exactly the requested size and alignment (all sizes <= 65536, alignments 0..64, ffi_safe/namespaces symbolic) and a plain array only where allowed; an opaque item exposes no Field/BaseMember edges and a blocklisted root is never yielded by the allowlisting traversal while its references are; a blocklisted (non-allowlisted) type derives exactly what the user vouches for (real decision closure of blocklisted_type_implements_trait inside the real derive rule); and the real IsOpaque impls of ItemId/Item/Type/CompInfo decide opacity exactly as: annotation, --opaque-type match, TypeKind::Opaque, reference to / instantiation of an opaque item, non-type template parameters, unevaluable bit-field width, failed field layout, or a bit-field wider than its type - and an alias or pointer to an opaque type is not itself opaque.',
     note='Trusted: Kani/CBMC; stub IR and layout stubs. Not covered: is_blocklisted / opaque_by_name (regex + paths; a symbolic flag here), IsOpaque for TemplateInstantiation (path strings), that use sites still name the type, layout with a user-supplied definition.',
     ref='DESIGN.md section 3, C10')
 CLAIMED['C12'] = dict(
-    text='Kernel level: absence of panic, overflow, out-of-range shift, index error and unwrap on None for all inputs within the bounds of the input-facing kernel RustTarget::from_str over 45 shape-parameterised strings (digits symbolic); the same automatic checks are active in every harness of every other property. Finding F3 (1.0-nightly underflow) is repaired.',
-    note='Trusted: Kani/CBMC, dev-profile semantics; memchr/fmt::format stubs. Not covered: the several hundred expect/unwrap sites whose preconditions are libclang AST shapes, stack depth, termination, clang-rejected headers, file-system faults.',
+    text='Kernel level: absence of panic, overflow, out-of-range shift, index error and unwrap on None for all inputs within the bounds of the input-facing kernel RustTarget::from_str over 45 shape-parameterised strings (digits symbolic); the same automatic checks are active in every harness of every other property. Error values: the real diagnostics prologue of fn parse returns Err(ClangDiagnostic) carrying every error/fatal message in order iff clang reported an error or fatal diagnostic (<= 3 diagnostics, all severities); the real input-path pre-check of Bindings::generate returns NotExist / FolderAsHeader / InsufficientPermissions exactly for a missing / directory / unreadable path, judged on what the path resolves to (stat vs lstat modelled, symbolic links included). Finding F3 (1.0-nightly underflow) is repaired.',
+    note='Trusted: Kani/CBMC, dev-profile semantics; memchr/fmt::format stubs. Not covered: the several hundred expect/unwrap sites whose preconditions are libclang AST shapes, stack depth, termination, what libclang reports for a header and real file-system behaviour (both modelled).',
     ref='DESIGN.md section 3, C12')
 CLAIMED['C13'] = dict(
     text='Codec level: parse(to_string(v)) = v for every value of EnumVariation, MacroTypeVariation, AliasVariation, NonCopyUnionStyle, Formatter, FieldVisibilityKind, Abi, RustEdition, nightly; RustTarget::from_str on shape-parameterised strings returns the decimal value written; CodegenConfig <-> --generate/--ignore-* for all 63 non-empty values through the real as_args closure and the real parse_codegen_config; header ordering: the clang command line of the builder rebuilt from command_line_flags() equals the original one for 1..4 headers.',
